@@ -665,3 +665,496 @@ def run(ctx) -> None:  # noqa: F811
                   key_detail="component")
     ctx.require(n >= 1, f"R-COMPONENT matched no kernel in {INTEGRALS}")
     _inner_run_c08b(ctx)
+
+
+# ---- added after the mutation sweep: whole-pixel translation of the atoms, decided on terms
+_inner_run_c08c = run
+
+
+def _index_elements(f: FuncInfo, df: DataFlow, at: int, e: ast.AST, seen: Optional[set] = None, depth: int = 0):
+    """(expression, cfg node) of every element of a scatter index component, with the periodic reduction removed."""
+    seen = seen if seen is not None else set()
+    if depth > 12:
+        raise AnalysisError(f"{f.qualname}: scatter index built too deeply to enumerate")
+    if isinstance(e, ast.BinOp) and isinstance(e.op, ast.Mod):
+        yield e.left, at
+    elif isinstance(e, ast.Call) and last_attr(e) in MOD_FUNCS and len(e.args) == 2:
+        yield e.args[0], at
+    elif isinstance(e, ast.Call) and last_attr(e) in ARRAY_CTORS and e.args:
+        yield from _index_elements(f, df, at, e.args[0], seen, depth + 1)
+    elif isinstance(e, ast.Call) and last_attr(e) in ("astype", "copy", "ravel", "flatten", "reshape") and \
+            isinstance(e.func, ast.Attribute):
+        yield from _index_elements(f, df, at, e.func.value, seen, depth + 1)
+    elif isinstance(e, (ast.List, ast.Tuple)):
+        for el in e.elts:
+            yield from _index_elements(f, df, at, el, seen, depth + 1)
+    elif isinstance(e, ast.BinOp) and isinstance(e.op, ast.Mult) and any(
+            isinstance(x, ast.Constant) and isinstance(x.value, int) for x in (e.left, e.right)):
+        seq = e.right if isinstance(e.left, ast.Constant) else e.left
+        yield from _index_elements(f, df, at, seq, seen, depth + 1)
+    elif isinstance(e, ast.BinOp) and isinstance(e.op, ast.Add) and all(_WrapAnalysis._is_seq(x) for x in (e.left, e.right)):
+        yield from _index_elements(f, df, at, e.left, seen, depth + 1)
+        yield from _index_elements(f, df, at, e.right, seen, depth + 1)
+    elif isinstance(e, ast.Subscript) and not isinstance(e.slice, (ast.Slice,)) and all(
+            (isinstance(p, ast.Constant) and p.value is None) or
+            (isinstance(p, ast.Slice) and p.lower is None and p.upper is None and p.step is None)
+            for p in (e.slice.elts if isinstance(e.slice, ast.Tuple) else [e.slice])):
+        yield from _index_elements(f, df, at, e.value, seen, depth + 1)
+    elif isinstance(e, ast.Name):
+        rd = [d for d in df.reaching(at, e.id)]
+        if not rd or any(d.kind != "assign" or d.value is None for d in rd):
+            yield e, at
+            return
+        for d in rd:
+            if (d.node, e.id) in seen:
+                continue
+            seen.add((d.node, e.id))
+            st = df.cfg.nodes[d.node].ast
+            if isinstance(st, ast.Assign) and isinstance(st.targets[0], (ast.Tuple, ast.List)) and \
+                    not isinstance(st.value, (ast.Tuple, ast.List)):
+                yield e, at
+                continue
+            yield from _index_elements(f, df, d.node, d.value, seen, depth + 1)
+    else:
+        yield e, at
+
+
+def _weight_elements(f: FuncInfo, df: DataFlow, at: int, var: str, seen: Optional[set] = None):
+    seen = seen if seen is not None else set()
+    for d in df.reaching(at, var):
+        if (d.node, var) in seen or d.kind != "assign" or d.value is None:
+            continue
+        seen.add((d.node, var))
+        v = d.value
+        if isinstance(v, ast.BinOp) and isinstance(v.op, ast.Mult) and any(
+                isinstance(s, ast.Name) and s.id == var for s in (v.left, v.right)):
+            yield from _weight_elements(f, df, d.node, var, seen)
+            continue
+        lit = _array_literal(v)
+        if lit is not None:
+            for el in lit.elts:
+                yield el, d.node
+        elif isinstance(v, ast.Name):
+            yield from _weight_elements(f, df, d.node, v.id, seen)
+
+
+def _check_equivariant(ctx) -> None:
+    from ..rules import equivariant as eq
+
+    rule = "R-EQUIVARIANT"
+    repo = ctx.repo
+    mod = repo.modules[INTEGRALS]
+    n_idx = n_val = 0
+
+    def judge(f, what, site, before, after, want_shift, kind):
+        nonlocal n_idx, n_val
+        want = before + want_shift
+        if kind == "index":
+            n_idx += 1
+        else:
+            n_val += 1
+        ctx.check(after == want, rule, f"{f.qualname}:{what}", f.loc(site),
+                  ("moves with the atoms by the same whole pixels" if kind == "index" else
+                   "unchanged when the atoms move by whole pixels") + f" ({eq.show(before)})",
+                  (f"after translating every atom by N whole pixels the {what} becomes {eq.show(after)} instead of "
+                   f"{eq.show(want)}: " +
+                   ("the footprint of an atom does not move by the same pixels as the atom" if kind == "index" else
+                    "the value deposited for an atom depends on which pixel the atom sits in, not only on its "
+                    "sub-pixel offset / its distance to the pixel")), key_detail=kind)
+
+    # (A) the delta superposition works in pixel coordinates
+    sd = repo.function(INTEGRALS, "superpose_deltas")
+    coord = [p for p in sd.positional_params if p in ("positions", "position")]
+    ctx.require(len(coord) == 1, f"{sd.qualname}: coordinate parameter not found")
+    df = DataFlow(sd.node)
+    sinks = _scatter_sinks(sd)
+    if not sinks:
+        ctx.info(rule, f"{sd.qualname}:scatter", sd.where, "no ufunc.at / scatter_add sink (flattened accumulation, see R-WRAP)")
+    for c in sinks[:1]:
+        if len(c.args) != 3:
+            continue
+        arr, idx, val = c.args
+        at = df.cfg.node_of(_stmt_containing(sd.node, c)).idx
+        if isinstance(idx, ast.Name):
+            d = df.single_def(at, idx.id)
+            if d is not None and isinstance(d.value, ast.Tuple):
+                idx, at_i = d.value, d.node
+            else:
+                at_i = at
+        else:
+            at_i = at
+        if not (isinstance(idx, ast.Tuple) and len(idx.elts) == 2):
+            continue
+        for axis, comp in enumerate(idx.elts):
+            seen_keys = set()
+            k = 0
+            for el, at_el in _index_elements(sd, df, at_i, comp):
+                tr = eq.Translate({coord[0]}, set(), None)
+                before, after, hits = eq.translated_pair(df, at_el, el, tr)
+                if before.key() in seen_keys:
+                    continue
+                seen_keys.add(before.key())
+                k += 1
+                judge(sd, f"pixel index[{axis}] element {k}", c, before, after, eq.n_atom(axis), "index")
+        if isinstance(val, ast.Name):
+            k = 0
+            for el, at_el in _weight_elements(sd, df, at, val.id):
+                tr = eq.Translate({coord[0]}, set(), None)
+                before, after, hits = eq.translated_pair(df, at_el, el, tr)
+                k += 1
+                judge(sd, f"weight {k}", el, before, after, Poly(), "value")
+
+    # (B) kernels that place every atom's footprint themselves (Å coordinates and a sampling vector)
+    for f in mod.functions.values():
+        ps = set(f.params)
+        coord = [p for p in f.positional_params if p in ("positions", "position")]
+        if len(coord) != 1 or "sampling" not in ps:
+            continue
+        dff = DataFlow(f.node)
+        k = 0
+        for node in dff.cfg.nodes:
+            st = node.ast
+            if node.kind != "stmt" or not isinstance(st, (ast.AugAssign, ast.Assign)):
+                continue
+            tgt = st.target if isinstance(st, ast.AugAssign) else st.targets[0]
+            if not (isinstance(tgt, ast.Subscript) and isinstance(tgt.value, ast.Name) and tgt.value.id in ps
+                    and isinstance(tgt.slice, ast.Tuple) and len(tgt.slice.elts) == 2):
+                continue
+            k += 1
+            for axis, comp in enumerate(tgt.slice.elts):
+                tr = eq.Translate({coord[0]}, set(), "sampling")
+                before, after, hits = eq.translated_pair(dff, node.idx, comp, tr)
+                judge(f, f"store #{k} pixel index[{axis}]", st, before, after, eq.n_atom(axis), "index")
+            tr = eq.Translate({coord[0]}, set(), "sampling")
+            before, after, hits = eq.translated_pair(dff, node.idx, st.value, tr)
+            judge(f, f"store #{k} value", st, before, after, Poly(), "value")
+
+    # (C) callers of the delta superposition convert Å to pixels
+    for f in repo.all_functions():
+        if f.module.name != INTEGRALS:
+            continue
+        calls = [c for c in walk_no_nested(f.node) if isinstance(c, ast.Call) and call_name(c) == sd.name and c.args]
+        if not calls or "sampling" not in f.params or not ({"atoms", "positions"} & set(f.params)):
+            continue
+        dff = DataFlow(f.node)
+        for k, c in enumerate(calls):
+            at = dff.cfg.node_of(_stmt_containing(f.node, c)).idx
+            tr = eq.Translate({"positions"} & set(f.params), {"atoms.positions"} if "atoms" in f.params else set(),
+                              "sampling")
+            before, after, hits = eq.translated_pair(dff, at, c.args[0], tr)
+            ctx.require(hits >= 1, f"{f.qualname}: the pixel coordinates handed to {sd.name} do not read the atomic "
+                                   "positions in a form the analyser can translate")
+            judge(f, f"pixel coordinates passed to {sd.name}" + (f"#{k + 1}" if k else ""), c, before, after,
+                  Poly.atom(eq.NV), "index")
+    ctx.require(n_idx >= 8 and n_val >= 3, f"R-EQUIVARIANT examined only {n_idx} pixel indices / {n_val} deposited values")
+
+
+def run(ctx) -> None:  # noqa: F811
+    ctx.rule("R-EQUIVARIANT", "symbolic translation of every atom by N whole pixels (sa/rules/equivariant.py: full "
+             "inlining, P[.., k] -> P[.., k] + N_k (* sampling[k] for Å coordinates), floor/round commute with integer "
+             "shifts, term normal form): every pixel index at which superpose_deltas / interpolate_radial_functions "
+             "deposit becomes index + N_k (before the periodic reduction), every deposited value (bilinear weights, "
+             "interpolated radial function) is unchanged, and the pixel coordinates that integrate_on_grid hands to "
+             "superpose_deltas become coordinates + N.  Otherwise the slice of the translated structure is not the "
+             "translated slice")
+    from ..rules import deferred
+
+    deferred.run(ctx, lambda: _check_equivariant(ctx), _inner_run_c08c)
+
+
+# ---- added after the mutation sweep: kernels that do not wrap guard their stores with the bounds of the same axis
+_inner_run_c08d = run
+
+_CMP = {ast.Lt: "<", ast.LtE: "<=", ast.Gt: ">", ast.GtE: ">="}
+_NEG = {"<": ">=", "<=": ">", ">": "<=", ">=": "<"}
+
+
+def _facts(test: ast.AST, truth: bool) -> list[tuple[ast.AST, str, ast.AST]]:
+    """Order comparisons known to hold when `test` evaluates to `truth` (parts that are not understood add nothing)."""
+    if isinstance(test, ast.UnaryOp) and isinstance(test.op, ast.Not):
+        return _facts(test.operand, not truth)
+    parts, conj = None, None
+    if isinstance(test, ast.BoolOp):
+        parts, conj = test.values, isinstance(test.op, ast.And)
+    elif isinstance(test, ast.BinOp) and isinstance(test.op, (ast.BitAnd, ast.BitOr)):
+        parts, conj = [test.left, test.right], isinstance(test.op, ast.BitAnd)
+    if parts is not None:
+        if conj == truth:
+            return [x for p in parts for x in _facts(p, truth)]
+        return []
+    if isinstance(test, ast.Compare) and all(type(o) in _CMP for o in test.ops):
+        sides = [test.left] + list(test.comparators)
+        pairs = [(sides[i], _CMP[type(test.ops[i])], sides[i + 1]) for i in range(len(test.ops))]
+        if truth:
+            return pairs
+        if len(pairs) == 1:
+            l, o, r = pairs[0]
+            return [(l, _NEG[o], r)]
+    return []
+
+
+def _check_bounds(ctx) -> None:
+    rule = "R-BOUNDS"
+    repo = ctx.repo
+    mod = repo.modules[INTEGRALS]
+    n = 0
+    for f in mod.functions.values():
+        ps = set(f.params)
+        if not (ps & {"positions", "position"}) or "sampling" not in ps:
+            continue
+        df = DataFlow(f.node)
+        cfg = df.cfg
+        k = 0
+        for node in cfg.nodes:
+            st = node.ast
+            if node.kind != "stmt" or not isinstance(st, (ast.AugAssign, ast.Assign)):
+                continue
+            tgt = st.target if isinstance(st, ast.AugAssign) else st.targets[0]
+            if not (isinstance(tgt, ast.Subscript) and isinstance(tgt.value, ast.Name) and tgt.value.id in ps
+                    and isinstance(tgt.slice, ast.Tuple) and len(tgt.slice.elts) == 2):
+                continue
+            k += 1
+            arr = tgt.value.id
+            wa = _WrapAnalysis(f, df, arr)
+            # facts established by the tests that dominate the store
+            facts = []
+            for t in cfg.nodes:
+                if t.kind != "test" or not isinstance(t.ast, ast.If) or not cfg.dominates(t.idx, node.idx):
+                    continue
+                arms = {cfg.elabel.get((t.idx, s)): s for s in t.succ}
+                if set(arms) != {"T", "F"}:
+                    continue
+
+                def reach(src):
+                    seen, stack = set(), [src]
+                    while stack:
+                        x = stack.pop()
+                        if x == node.idx:
+                            return True
+                        if x in seen or x == t.idx:
+                            continue
+                        seen.add(x)
+                        stack.extend(cfg.nodes[x].succ)
+                    return False
+
+                rt, rf = reach(arms["T"]), reach(arms["F"])
+                if rt != rf:
+                    facts += [(l, o, r, t.idx) for l, o, r in _facts(t.ast.test, rt)]
+            for axis, comp in enumerate(tgt.slice.elts):
+                if isinstance(comp, ast.BinOp) and isinstance(comp.op, ast.Mod):
+                    continue  # periodic store: R-WRAP's business
+                p = FlowNormalizer(df, node.idx).norm(comp)
+                lows, ups, notes = [], [], []
+                for l, o, r, at in facts:
+                    pl, pr = FlowNormalizer(df, at).norm(l), FlowNormalizer(df, at).norm(r)
+                    if pl == p and pr != p:
+                        other, po, op = r, pr, o
+                    elif pr == p and pl != p:
+                        other, po, op = l, pl, {"<": ">", "<=": ">=", ">": "<", ">=": "<="}[o]
+                    else:
+                        continue
+                    # now:  index  op  other
+                    if op in (">", ">="):
+                        c = po.const_value()
+                        if c is None:
+                            raise AnalysisError(f"{f.qualname}: lower bound `{norm_text(other)[:40]}` of a pixel index is not "
+                                                "a constant")
+                        lows.append(int(c) + (1 if op == ">" else 0))
+                    else:
+                        strict = op == "<"
+                        e = other
+                        if not strict and isinstance(e, ast.BinOp) and isinstance(e.op, ast.Sub) and \
+                                isinstance(e.right, ast.Constant) and e.right.value == 1:
+                            e, strict = e.left, True
+                        ax = wa.axis_len(e, at)
+                        if ax is None:
+                            raise AnalysisError(f"{f.qualname}: upper bound `{norm_text(other)[:40]}` of a pixel index is not "
+                                                f"an axis length of `{arr}`")
+                        ups.append((ax, strict))
+                n += 1
+                lo_ok = bool(lows) and max(lows) == 0
+                up_ok = bool(ups) and all(ax == axis for ax, _ in ups) and any(s for _, s in ups) and \
+                    all(s for ax, s in ups)
+                why = []
+                if not lows:
+                    why.append("no test keeps the index >= 0")
+                elif max(lows) != 0:
+                    why.append(f"the index is only stored for values >= {max(lows)}" if max(lows) > 0 else
+                               f"indices down to {max(lows)} are stored")
+                if not ups:
+                    why.append(f"no test keeps the index below {arr}.shape[{axis}]")
+                else:
+                    if any(ax != axis for ax, _ in ups):
+                        why.append(f"the index of axis {axis} is compared with the length of axis "
+                                   f"{[ax for ax, _ in ups if ax != axis][0]}")
+                    if any(not s for _, s in ups):
+                        why.append(f"the index may equal {arr}.shape[{axis}]")
+                ctx.check(lo_ok and up_ok, rule, f"{f.qualname}:store #{k} index[{axis}]", f.loc(st),
+                          f"stored only for 0 <= index < {arr}.shape[{axis}]",
+                          f"the pixel index `{norm_text(comp)}` of axis {axis} is not confined to exactly "
+                          f"[0, {arr}.shape[{axis}]): " + "; ".join(why) + " — a footprint pixel inside the grid is dropped "
+                          "or one outside it is written (to another row/column or out of bounds), so the slice of a "
+                          "translated structure is not the translated slice", key_detail="bounds")
+    ctx.require(n >= 4, f"R-BOUNDS examined only {n} guarded pixel indices")
+
+
+def run(ctx) -> None:  # noqa: F811
+    ctx.rule("R-BOUNDS", "a kernel that places footprints without periodic reduction (interpolate_radial_functions: the "
+             "atoms are padded periodically beforehand) stores at array[k, m] only under tests that confine each index "
+             "to exactly [0, array.shape[axis]) of its own axis (facts collected from the dominating tests on the arm that "
+             "reaches the store, conjunctions / negated disjunctions, term equality of the compared index).  A looser "
+             "bound writes outside the grid, a stricter one or the length of the other axis drops pixels of the "
+             "footprint near one edge only — the potential then depends on where in the cell an atom sits")
+    from ..rules import deferred
+
+    deferred.run(ctx, lambda: _check_bounds(ctx), _inner_run_c08d)
+
+
+# ---- added after the mutation sweep: normalisation of the repetitions in tile, atom loops, CrystalPotential window
+_inner_run_c08e = run
+
+
+def _guards_of(func: ast.AST, stmt: ast.AST) -> list[tuple[ast.If, bool]]:
+    out: list[tuple[ast.If, bool]] = []
+
+    def rec(body, stack) -> bool:
+        for st in body:
+            if st is stmt:
+                out.extend(stack)
+                return True
+            if isinstance(st, ast.If):
+                if rec(st.body, stack + [(st, True)]) or rec(st.orelse, stack + [(st, False)]):
+                    return True
+            elif isinstance(st, (ast.For, ast.While, ast.With, ast.Try)):
+                for fld in ("body", "orelse", "finalbody"):
+                    if rec(getattr(st, fld, []) or [], stack):
+                        return True
+                for h in getattr(st, "handlers", []):
+                    if rec(h.body, stack):
+                        return True
+        return False
+
+    rec(func.body, [])
+    return out
+
+
+def _check_tile_pad(ctx, f: FuncInfo) -> None:
+    rule = "R-TILE-PAD"
+    ctx.require(len(f.positional_params) >= 2, f"{f.qualname}: repetitions parameter not found")
+    par = f.positional_params[1]
+    df = DataFlow(f.node)
+    n = 0
+    for st in walk_no_nested(f.node):
+        if not (isinstance(st, ast.Assign) and any(isinstance(t, ast.Name) and t.id == par for t in st.targets)):
+            continue
+        n += 1
+        at = df.cfg.node_of(st).idx
+        ctx.require(all(d.kind == "param" for d in df.reaching(at, par)),
+                    f"{f.qualname}: `{par}` is reassigned more than once")
+        v = st.value
+        taken: Optional[list[int]] = None
+        pad: list[ast.AST] = []
+        if isinstance(v, (ast.Tuple, ast.List)):
+            taken = []
+            for el in v.elts:
+                ci = _const_index(el)
+                if ci is not None and ci[0] == par and not pad:
+                    taken.append(ci[1])
+                else:
+                    pad.append(el)
+        elif isinstance(v, ast.BinOp) and isinstance(v.op, ast.Add) and isinstance(v.right, (ast.Tuple, ast.List)):
+            left = v.left
+            while isinstance(left, ast.Call) and call_name(left) in ("tuple", "list") and len(left.args) == 1:
+                left = left.args[0]
+            if isinstance(left, ast.Name) and left.id == par:
+                taken, pad = [], list(v.right.elts)  # the whole sequence, in order
+        ctx.require(taken is not None, f"{f.qualname}: cannot read `{norm_text(st)[:70]}` as a padding of `{par}`")
+        m_guard = None
+        for g, arm in _guards_of(f.node, st):
+            t = g.test
+            if isinstance(t, ast.Compare) and len(t.ops) == 1 and isinstance(t.left, ast.Call) and \
+                    call_name(t.left) == "len" and t.left.args and dotted(t.left.args[0]) == par and \
+                    isinstance(t.comparators[0], ast.Constant) and isinstance(t.comparators[0].value, int):
+                if (isinstance(t.ops[0], ast.Eq) and arm) or (isinstance(t.ops[0], ast.NotEq) and not arm):
+                    m_guard = t.comparators[0].value
+        order_ok = taken == list(range(len(taken)))
+        ctx.check(order_ok, rule, f"{f.qualname}:components keep their axes", f.loc(st),
+                  f"`{norm_text(v)[:60]}` keeps component k at position k",
+                  f"`{norm_text(st)[:70]}` puts components {taken} of `{par}` at positions {list(range(len(taken)))}: the x "
+                  "and y repetition counts are exchanged for a two-component argument", key_detail="order")
+        ones = all(isinstance(e, ast.Constant) and e.value == 1 for e in pad)
+        n_taken = len(taken) if isinstance(v, (ast.Tuple, ast.List)) else m_guard
+        ok_len = m_guard is not None and n_taken == m_guard and ones and (m_guard + len(pad) == 3)
+        ctx.check(ok_len, rule, f"{f.qualname}:padding applies to short arguments only", f.loc(st),
+                  f"executed when len({par}) == {m_guard}; padded with {len(pad)} one(s) to (x, y, z)",
+                  f"`{norm_text(st)[:70]}` " + (
+                      f"is executed without the guarantee len({par}) == {n_taken}" if m_guard is None else
+                      f"is executed when len({par}) == {m_guard} but rebuilds the tuple from {n_taken} component(s) and "
+                      f"{len(pad)} padding value(s)") +
+                  ": a three-component argument loses its z repetition / the padded components are not 1, so the tiled "
+                  "array is not the requested supercell", key_detail="guard")
+    if n == 0:
+        ctx.ok(rule, f"{f.qualname}:repetitions used as given", f.where, f"`{par}` is never rebuilt")
+
+
+def _check_atom_loops(ctx) -> None:
+    rule = "R-ATOMLOOP"
+    repo = ctx.repo
+    mod = repo.modules[INTEGRALS]
+    n = 0
+    for f in mod.functions.values():
+        coords = [p for p in f.params if p in ("positions", "position")]
+        if not coords or "sampling" not in f.params:
+            continue
+        for lp in walk_no_nested(f.node):
+            if not (isinstance(lp, ast.For) and isinstance(lp.target, ast.Name) and isinstance(lp.iter, ast.Call)
+                    and call_name(lp.iter) in ("range", "prange", "numba.prange", "nb.prange") and len(lp.iter.args) == 1):
+                continue
+            b = lp.iter.args[0]
+            arr, axis = None, None
+            if isinstance(b, ast.Call) and call_name(b) == "len" and b.args and isinstance(b.args[0], ast.Name):
+                arr, axis = b.args[0].id, 0
+            elif isinstance(b, ast.Subscript) and isinstance(b.slice, ast.Constant) and isinstance(b.slice.value, int) \
+                    and isinstance(b.value, ast.Attribute) and b.value.attr == "shape" and isinstance(b.value.value, ast.Name):
+                arr, axis = b.value.value.id, b.slice.value
+            if arr not in coords:
+                continue
+            used = set()
+            for s in ast.walk(lp):
+                if isinstance(s, ast.Subscript) and isinstance(s.value, ast.Name) and s.value.id == arr:
+                    parts = s.slice.elts if isinstance(s.slice, ast.Tuple) else [s.slice]
+                    for pos, p_ in enumerate(parts):
+                        if isinstance(p_, ast.Name) and p_.id == lp.target.id:
+                            used.add(pos)
+            if not used:
+                continue
+            n += 1
+            ctx.check(used == {axis}, rule, f"{f.qualname}:loop over the atoms", f.loc(lp),
+                      f"the loop runs over axis {axis} of the coordinates and indexes that axis",
+                      f"`for … in {norm_text(lp.iter)}` runs over the length of axis {axis} of the coordinate array but its "
+                      f"index is used on axis {sorted(used)}: only the first {norm_text(b)} atoms are placed, so the potential "
+                      "of a repeated cell is not the tiled potential of the unit", key_detail="axis")
+    ctx.require(n >= 1, "R-ATOMLOOP found no loop over the atoms in the projection kernels")
+
+
+def run(ctx) -> None:  # noqa: F811
+    from . import c10
+
+    ctx.rule("R-TILE-PAD", "FieldArray.tile may normalise a two-component repetitions argument to (x, y, 1): the rebuilt "
+             "tuple keeps component k at position k, pads with ones up to three components, and is executed only on the "
+             "arm where len(repetitions) equals the number of components it copies")
+    ctx.rule("R-ATOMLOOP", "a loop `for i in range(positions.shape[a])` / `range(len(positions))` of a projection kernel "
+             "uses i on axis a of the coordinate array: a loop over the length of the coordinate axis places only the "
+             "first two or three atoms, which breaks the equality of a repeated cell with the tiled unit")
+    ctx.rule("R-WINCOUNT", c10.WINCOUNT_TEXT + "  (rule of C10; CrystalPotential.build fills a pre-allocated array from "
+             "this generator, so a skipped first slice makes the repeated potential differ from the tiled unit)")
+    from ..rules import deferred, window
+
+    def new():
+        _check_tile_pad(ctx, ctx.repo.method(IAM, "FieldArray", "tile"))
+        _check_atom_loops(ctx)
+        f = ctx.repo.method(IAM, "CrystalPotential", "generate_slices")
+        got = window.check_counter(ctx, "R-WINCOUNT", f)
+        ctx.require(got >= 2, f"{f.qualname}: the slice counter tests were not found")
+
+    deferred.run(ctx, new, _inner_run_c08e)
